@@ -452,6 +452,46 @@ func ruleOverride(c *Ctx) {
 			}
 			c.check(problem == "", "cmd."+g+"|sentinel-only-for-zero", c.pos(gf.Pos()), fname(gf), "`not given` for the zero value only (folded on probe values)", "cmd."+g+": "+problem)
 		}
+		if g == "getMeter" {
+			// the time signature is the fraction as written: 6/8 is not 3/4 and 2/2 is not 1/1
+			c.site(1)
+			problem, undecided := "", ""
+			for _, pr := range [][3]int64{{6, 8}, {2, 2}, {12, 8}, {4, 4}, {3, 4}, {7, 16}} {
+				text := fmt.Sprintf("%d/%d", pr[0], pr[1])
+				fd := c.newFolder()
+				fd.maxSteps, fd.maxDepth = 40000, 10
+				fd.lib = func(fn *ssa.Function, args []fval) (fval, bool) {
+					switch fname(fn) {
+					case "github.com/spf13/cobra.Command.Flags", "github.com/spf13/cobra.Command.PersistentFlags":
+						return fval{nonNil: true}, true
+					case "github.com/spf13/pflag.FlagSet.GetString":
+						return fval{tuple: []fval{{k: constant.MakeString(text), t: types.Typ[types.String]}, {isNil: true}}}, true
+					}
+					return top, false
+				}
+				r, err := fd.foldCall(gf, []fval{{nonNil: true}})
+				if err != nil || len(r.tuple) != 2 || !r.tuple[1].isNil || r.tuple[0].fields == nil || r.tuple[0].fields["Rat"].fields == nil {
+					undecided = fmt.Sprintf("--meter %s does not fold to a meter (%v)", text, err)
+					break
+				}
+				rat := r.tuple[0].fields["Rat"].fields
+				if rat["Num"].k == nil || rat["Denom"].k == nil {
+					undecided = "--meter " + text + " does not fold to a known fraction"
+					break
+				}
+				gn, _ := constant.Int64Val(rat["Num"].k)
+				gd, _ := constant.Int64Val(rat["Denom"].k)
+				if gn != pr[0] || gd != pr[1] {
+					problem = fmt.Sprintf("--meter %s becomes the time signature %d/%d: the fraction is not taken as it was written", text, gn, gd)
+				}
+			}
+			switch {
+			case undecided != "":
+				c.undec("cmd.getMeter|as-written", c.pos(gf.Pos()), fname(gf), undecided)
+			default:
+				c.check(problem == "", "cmd.getMeter|as-written", c.pos(gf.Pos()), fname(gf), "numerator and denominator of --meter are taken as written (6/8, 2/2, 12/8, 4/4, 3/4, 7/16 folded)", "cmd.getMeter: "+problem)
+			}
+		}
 	}
 }
 
